@@ -9,8 +9,10 @@ order, aborted at the first error (`if _, err := w.writer.Write(..); err != nil 
 A *schedule* is an explicit list of `Op`s: producer actions (`w`, `endRec`, `flush`, `close`) and
 consumer actions (`pop n` = the writer goroutine moves chunks from the channel into the
 `bufio.Writer`; `sync n` = `bufio` hands `n` buffered bytes to the file) in any interleaving.
-A disk stall is a stretch of the schedule without `pop`/`sync`.  The ticker flush of `writeLoop`
-is a particular sequence `pop … sync` and needs no op of its own.
+`tick` / `tickDone` = the PERIODIC flush of `writeLoop` (ticker branch): `tick` drains the channel
+into bufio and enters `bufio.Flush`; until `tickDone` the writer goroutine is busy (the disk may stall
+there) while the producer may write, flush or close.  A disk stall is a stretch of the schedule
+without `pop`/`sync`/`tickDone`.
 
 Model assumptions (not verified): Go buffered-channel semantics (`select`/`default` send fails iff
 the channel holds `cap` elements; FIFO), `bufio.Writer` (bytes leave in order; `Flush` empties it),
@@ -28,9 +30,10 @@ structure Q where
   buf : List Chunk        -- handed to `bufio` by the writer goroutine, not yet in the file
   file : List Nat         -- the underlying writer's content
   closed : Bool           -- `Close` has returned (writer goroutine gone)
+  inTick : Bool           -- the writer goroutine is inside the PERIODIC flush (ticker branch), in `bufio.Flush`
 deriving Repr, DecidableEq
 
-def Q.init (cap : Nat) : Q := { cap, q := [], buf := [], file := [], closed := false }
+def Q.init (cap : Nat) : Q := { cap, q := [], buf := [], file := [], closed := false, inTick := false }
 
 /-- `Writer.Write`: `select { case datachannel <- p: ok; default: io.ErrShortWrite }`.
 After `Close` the channel still exists: a write is still "accepted" while there is room (and lost). -/
@@ -39,18 +42,30 @@ def Q.write (s : Q) (c : Chunk) : Q × Bool :=
 
 /-- the writer goroutine receives up to `n` chunks and `bufio.Write`s them; returns how many. -/
 def Q.pop (s : Q) (n : Nat) : Q × Nat :=
-  if s.closed then (s, 0) else
+  if s.closed || s.inTick then (s, 0) else
   ({ s with q := s.q.drop n, buf := s.buf ++ s.q.take n }, min n s.q.length)
 
 /-- `bufio` passes up to `n` buffered bytes on to the file; returns how many. -/
 def Q.sync (s : Q) (n : Nat) : Q × Nat :=
-  if s.closed then (s, 0) else
+  if s.closed || s.inTick then (s, 0) else
   ({ s with file := s.file ++ s.buf.flatten.take n, buf := [s.buf.flatten.drop n] },
    min n s.buf.flatten.length)
 
 /-- `flush()` run to completion while the producer waits: empty the channel, `bufio.Flush`. -/
 def Q.drain (s : Q) : Q :=
-  { s with file := s.file ++ s.buf.flatten ++ s.q.flatten, buf := [], q := [] }
+  { s with file := s.file ++ s.buf.flatten ++ s.q.flatten, buf := [], q := [], inTick := false }
+
+/-- the ticker fires: `case <-ticker.C: aw.flush()` — the drain loop empties the channel into bufio and
+`bufio.Flush` is entered.  Until `tickDone` the writer goroutine does nothing else (the disk may stall
+here for any time) while the producer keeps writing.  Returns the number of chunks drained. -/
+def Q.tick (s : Q) : Q × Nat :=
+  if s.closed || s.inTick then (s, 0) else
+  ({ s with q := [], buf := s.buf ++ s.q, inTick := true }, s.q.length)
+
+/-- the periodic flush's `bufio.Flush` returns: what bufio held is in the file.  Returns the bytes. -/
+def Q.tickDone (s : Q) : Q × Nat :=
+  if s.inTick then ({ s with file := s.file ++ s.buf.flatten, buf := [], inTick := false }, s.buf.flatten.length)
+  else (s, 0)
 
 /-- everything accepted and not yet lost: file, then bufio, then channel (FIFO order). -/
 def Q.stream (s : Q) : List Nat := s.file ++ s.buf.flatten ++ s.q.flatten
@@ -61,6 +76,8 @@ inductive Op where
   | endRec             -- producer: `WriteRecord` returns (nil, or the first error)
   | pop (n : Nat)      -- consumer: n channel receives
   | sync (n : Nat)     -- bufio → file, n bytes
+  | tick               -- consumer: the periodic (ticker) flush starts: drain the channel, enter `bufio.Flush`
+  | tickDone           -- consumer: the periodic flush's `bufio.Flush` returns (an unstalled tick = `tick, tickDone`)
   | flush              -- producer: `Flush()` (blocks until done)
   | close              -- producer: `Close()`
   | snap               -- observer: look at the file now
@@ -73,6 +90,8 @@ inductive Tok where
   | R (bytes : List Nat) (ok : Bool)   -- a whole record call whose chunking is not visible (real writers, k>1)
   | p (n : Nat)
   | y (n : Nat)
+  | tb (n : Nat)                       -- periodic flush began, n chunks drained from the channel
+  | te (n : Nat)                       -- periodic flush done, n bytes reached the file
   | f (qlen : Nat) (delta : List Nat)  -- Flush returned; queue length seen; file bytes since the last look
   | c (qlen : Nat) (delta : List Nat)  -- Close returned
   | z (delta : List Nat)               -- a look at the file
@@ -96,6 +115,8 @@ def step (y : Sys) : Op → Sys × List Tok
   | .endRec => ({ y with recOk := true }, [.e y.recOk])
   | .pop n => ({ y with s := (y.s.pop n).1 }, [.p (y.s.pop n).2])
   | .sync n => ({ y with s := (y.s.sync n).1 }, [.y (y.s.sync n).2])
+  | .tick => ({ y with s := y.s.tick.1 }, [.tb y.s.tick.2])
+  | .tickDone => ({ y with s := y.s.tickDone.1 }, [.te y.s.tickDone.2])
   | .flush =>
     if y.s.closed then (y, [.fx]) else
     ({ y with s := y.s.drain, seen := y.s.drain.file.length }, [.f 0 (y.s.drain.file.drop y.seen)])
@@ -188,6 +209,8 @@ def opOf : Tok → List Op
   | .R _ _ => []
   | .p n => [.pop n]
   | .y n => [.sync n]
+  | .tb _ => [.tick]
+  | .te _ => [.tickDone]
   | .f _ _ => [.flush]
   | .c _ _ => [.close]
   | .z _ => [.snap]
@@ -203,6 +226,8 @@ def parseTok : P Tok := do
   | "R" => do let c ← bytes; let ok ← bool; pure (.R c ok)
   | "p" => do let n ← nat; pure (.p n)
   | "y" => do let n ← nat; pure (.y n)
+  | "tb" => do let n ← nat; pure (.tb n)
+  | "te" => do let n ← nat; pure (.te n)
   | "f" => do let q ← nat; let d ← bytes; pure (.f q d)
   | "c" => do let q ← nat; let d ← bytes; pure (.c q d)
   | "z" => do let d ← bytes; pure (.z d)
@@ -262,6 +287,20 @@ def isFlush : Tok → Bool | .f _ _ => true | _ => false
 def isClose : Tok → Bool | .c _ _ => true | _ => false
 def isMisuse : Tok → Bool | .fx => true | .cx => true | _ => false
 def isSync : Tok → Bool | .y _ => true | _ => false
+def isTick : Tok → Bool | .tb _ => true | _ => false
+
+/-- a chunk was accepted while a periodic flush was stalled, and the next producer rendezvous after the
+periodic flush ended is an explicit Flush (no Write in between) -/
+def tickWriteFlush : Nat → List Tok → Bool   -- state: 0 idle, 1 in tick, 2 in tick + write seen, 3 tick over, flush pending
+  | _, [] => false
+  | _, .tb _ :: r => tickWriteFlush 1 r
+  | 1, .w _ true :: r => tickWriteFlush 2 r
+  | 2, .te _ :: r => tickWriteFlush 3 r
+  | 1, .te _ :: r => tickWriteFlush 0 r
+  | 3, .w _ _ :: r => tickWriteFlush 0 r
+  | 3, .f _ _ :: _ => true
+  | 2, .f _ _ :: _ => true
+  | n, _ :: r => tickWriteFlush n r
 
 /-- number of chunks in the longest record of the observation -/
 def maxChunks : Nat → Nat → List Tok → Nat
@@ -297,6 +336,8 @@ def runQ (h : Hdr) (outs : List String) : Verdict :=
             (if toks.any isClose then ["close"] else []) ++
             (if toks.any isMisuse then ["use-after-close"] else []) ++
             (if toks.any isSync then ["partial-sync"] else []) ++
+            (if toks.any isTick then ["tick-stall"] else []) ++
+            (if tickWriteFlush 0 toks then ["write-in-tick-then-flush"] else []) ++
             (if maxChunks 0 0 toks > 1 then ["multichunk"] else []) ++
             (if h.hdrw > 1 && h.kind != "AB" then ["multichunk-header"] else [])
           .ok tags
